@@ -65,8 +65,53 @@ def gen_fragment(rng):
     return "#" + seg(rng, ("/", "?", "&", "=", "!", "#"))
 
 
+# compositional hosts: [amp-prefix][irrelevant / language labels .]* name . suffix
+H_IRRELEVANT = ["www", "www2", "m", "mobile", "amp", "AMP", "Www", "M"]
+H_AMPDASH = ["amp-", "AMP-", "Amp-", "amp-amp-"]
+H_LANG = ["fr", "en-gb", "fr-FR", "de", "be", "EN", "us", "pt-br", "zz", "english"]
+H_NAME = ["x", "lemonde", "café", "xn--caf-dma", "forum-m", "a-www", "madame", "amp", "m", "www", "fr", "facebook", "youtube", "wikipedia"]
+H_SUFFIX = ["com", "fr", "co.uk", "blogspot.com", "github.io", "uk.com", "com.au", "kawasaki.jp", "ck", "org", "FR", "uk"]
+
+
+def gen_host(rng):
+    labels = []
+    for _ in range(rng.choice([0, 0, 1, 1, 2, 3])):
+        labels.append(rng.choice(H_IRRELEVANT if rng.random() < 0.55 else H_LANG))
+    r = rng.random()
+    if r < 0.8:
+        labels.append(rng.choice(H_NAME))
+    h = ".".join(labels + [rng.choice(H_SUFFIX)])
+    if rng.random() < 0.2:
+        h = rng.choice(H_AMPDASH) + h
+    if rng.random() < 0.04:
+        h += "."
+    return h
+
+
+# query items the normalization tables know about (keys in any case, values exact / partial / empty / missing / escaped)
+Q_KEYS = ["utm_source", "utm_medium", "UTM_campaign", "source", "Source", "ref", "REF", "fbclid", "gclid", "gl", "hl", "HL", "amp", "amp_js_v", "usqp",
+          "PHPSESSID", "sid", "s", "__twitter_impression", "echobox", "platform", "m", "from", "mode", "output", "xtor", "spref", "feature", "v", "id", "page",
+          "%68l", "g%6C", "utm%5Fsource", "_ga", "mc_cid", "igshid", "share", "fb_ref", "mkt_tok", "sms_ss", "f", "__tn__"]
+Q_VALS = ["twitter", "twit", "t", "", "rss", "fb", "Twitter", "1", "true", "amp", "share", "ts", "fr", "0", "mobile", "twitter%2Ecom", "%74witter", "abc", "ios", "search"]
+
+
+def gen_known_item(rng):
+    k = rng.choice(Q_KEYS)
+    r = rng.random()
+    if r < 0.15:
+        return k
+    if r < 0.25:
+        return k + "="
+    return k + "=" + rng.choice(Q_VALS)
+
+
 def gen_url(rng):
-    return (rng.choice(SCHEMES) + rng.choice(USERINFO) + rng.choice(HOSTS) + rng.choice(PORTS) + gen_path(rng) + gen_query(rng) + gen_fragment(rng))
+    host = rng.choice(HOSTS) if rng.random() < 0.55 else gen_host(rng)
+    q = gen_query(rng)
+    if rng.random() < 0.3:
+        extra = "&".join(gen_known_item(rng) for _ in range(rng.choice([1, 1, 2])))
+        q = (q + "&" + extra) if len(q) > 1 and rng.random() < 0.6 else "?" + extra
+    return (rng.choice(SCHEMES) + rng.choice(USERINFO) + host + rng.choice(PORTS) + gen_path(rng) + q + gen_fragment(rng))
 
 
 def call(f, *a, **k):
